@@ -48,13 +48,15 @@ impl From<BoxError> for HErr {
     }
 }
 
-pub const K: usize = 4;
+/// events per script: 4 in the quick tier, 6 in the `*6` harnesses of the thorough tier
+pub const KMAX: usize = 6;
+static mut K: usize = 4;
 #[derive(Clone, Copy)]
 pub struct Ev {
     kind: u8, // 0 pending, 1 chunk, 2 err, 3 end
     n: u64,
 }
-static mut SCRIPT: [Ev; K] = [Ev { kind: 0, n: 0 }; K];
+static mut SCRIPT: [Ev; KMAX] = [Ev { kind: 0, n: 0 }; KMAX];
 
 /// Inner stream: replays SCRIPT, then ends. `honour`: delivers exactly `len` bytes in total
 /// unless it fails early (Entity::get_range's contract); otherwise arbitrary.
@@ -77,7 +79,7 @@ impl Stream for Inner {
             self.finished = true;
             return Poll::Ready(None);
         }
-        if self.i < K {
+        if self.i < unsafe { K } {
             let ev = unsafe { SCRIPT[self.i] };
             self.i += 1;
             let kind = if self.honour { ev.kind % 3 } else { ev.kind % 4 };
@@ -110,19 +112,24 @@ impl Stream for Inner {
 
 fn draw_script() {
     let mut i = 0;
-    while i < K {
-        let kind: u8 = kani::any();
-        let n: u64 = kani::any();
-        kani::assume(kind < 4);
-        unsafe {
-            SCRIPT[i] = Ev { kind, n };
+    while i < KMAX {
+        if i < unsafe { K } {
+            let kind: u8 = kani::any();
+            let n: u64 = kani::any();
+            kani::assume(kind < 4);
+            unsafe {
+                SCRIPT[i] = Ev { kind, n };
+            }
         }
         i += 1;
     }
 }
 
 /// SCENARIO exactlen_*: len:u64 | K x (kind:u8 n:u64)
-fn run_exactlen(honour: bool) {
+fn run_exactlen(honour: bool, k: usize) {
+    unsafe {
+        K = k;
+    }
     let len: u64 = kani::any();
     draw_script();
     let inner = Inner { i: 0, left: len, honour, finished: false, polls_after_finish: 0 };
@@ -139,7 +146,10 @@ fn run_exactlen(honour: bool) {
     let mut first_err_injected = false;
     let mut polls = 0;
     // K scripted events + default tail + end + 3 more polls after the terminal event (C20)
-    while polls < K + 5 {
+    while polls < KMAX + 5 {
+        if polls >= unsafe { K } + 5 {
+            break;
+        }
         let hint = http_body::Body::size_hint(&*body);
         let eos = http_body::Body::is_end_stream(&*body);
         if !errored {
@@ -198,8 +208,8 @@ fn run_exactlen(honour: bool) {
         let script_err = unsafe {
             let mut e = false;
             let mut i = 0;
-            while i < K {
-                if SCRIPT[i].kind % 3 == 2 {
+            while i < KMAX {
+                if i < K && SCRIPT[i].kind % 3 == 2 {
                     e = true;
                 }
                 i += 1;
@@ -220,9 +230,9 @@ fn run_exactlen(honour: bool) {
         let mut overlong = false;
         let mut stopped = false;
         let mut i = 0;
-        while i < K {
+        while i < KMAX {
             let ev = unsafe { SCRIPT[i] };
-            if !stopped && !overlong {
+            if i < unsafe { K } && !stopped && !overlong {
                 match ev.kind % 4 {
                     1 => {
                         cum += ev.n as u128;
@@ -248,13 +258,26 @@ fn run_exactlen(honour: bool) {
 #[kani::proof]
 #[kani::unwind(11)]
 fn exactlen_honour() {
-    run_exactlen(true)
+    run_exactlen(true, 4)
+}
+
+/// thorough tier: 6 scripted events
+#[kani::proof]
+#[kani::unwind(13)]
+fn exactlen_honour6() {
+    run_exactlen(true, 6)
+}
+
+#[kani::proof]
+#[kani::unwind(13)]
+fn exactlen_fault6() {
+    run_exactlen(false, 6)
 }
 
 #[kani::proof]
 #[kani::unwind(11)]
 fn exactlen_fault() {
-    run_exactlen(false)
+    run_exactlen(false, 4)
 }
 
 /// Body::from / Body::empty: exact hints and truthful end flag at every step.
